@@ -101,3 +101,89 @@ Print Assumptions C17_no_callback_no_status.
 Theorem C17_forward_only_sequences : forall m bs t, Forall good bs -> run_fwd m t true bs = map out_fwd (spec_run m t bs).
 Proof. exact run_fwd_good. Qed.
 Print Assumptions C17_forward_only_sequences.
+
+(* ================================================================== translator tie: the SOURCE of reject_epochs.
+   coq/gen/RejectGen.v is regenerated from psiaudio/pipeline.py on every run by translate/pyreject2coq.py (hook
+   `translate` of harness/C17.py): the coroutine as [reject_epochs_init] (the statements before `while True:`: mode
+   dispatch, threshold callback) and [reject_epochs_step] (one `data = (yield)` iteration: the refusals, the accept mask,
+   data[mask], status_cb, valid_target), [reject_epochs_run] (the started generator driven by send()), and the
+   PipelineData properties n_channels / n_epochs - statement by statement in the vocabulary of Reject/NumpyPrims.v.
+   Reject/ProofsTie.v proves them equal to the model above on the model's domain [dom] (a good batch, or a refused batch
+   with the 1..3 dimensions an annotated array of PData/Model.v can have), so the theorems above are theorems about
+   what the source says now. *)
+From PV Require Import Reject.NumpyPrims gen.RejectGen Reject.ProofsTie.
+
+(* the set-up: for the two mode strings and every threshold (a number or a callable) it leaves the criterion of the
+   mode and the threshold callback in the state *)
+Theorem C17_source_init_tie : forall cb m t, reject_epochs_init t (Some m) cb = ret (st_of cb m t).
+Proof. exact init_tie. Qed.
+Print Assumptions C17_source_init_tie.
+
+(* the criterion lambdas of the source (np.max(np.abs(s), axis=-1) < th, np.ptp(s, axis=-1) < th, then [:, 0]) compute
+   the model's accept mask on blocks of one channel *)
+Theorem C17_source_criterion_tie : forall m th blks, Forall (fun blk : list (list Z) => zlen blk = 1) blks ->
+  np_col0 (acc_of m blks th) = ret (accept_mask m th (N3 blks)).
+Proof. exact accept_tie. Qed.
+Print Assumptions C17_source_criterion_tie.
+
+(* ONE SEND: generated step = model step, for every batch of the domain, mode, threshold source, with / without callback *)
+Theorem C17_source_step_tie : forall cb m t b, dom b -> reject_epochs_step (st_of cb m t) b = model_step cb m t b.
+Proof. exact step_tie. Qed.
+Print Assumptions C17_source_step_tie.
+
+(* EVERY SEQUENCE OF SENDS: the generated coroutine is the model's run (cb = true: [run]; cb = false: [run_fwd]) *)
+Theorem C17_source_run_tie : forall cb m t bs, Forall dom bs ->
+  reject_epochs_run t (Some m) cb bs = ret (run_cb cb m t true bs).
+Proof. exact run_tie. Qed.
+Print Assumptions C17_source_run_tie.
+
+(* C17_forwards_exactly, about the generated definitions alone *)
+Theorem C17_source_forwards_exactly : forall m t b, good b ->
+  bind (reject_epochs_init t (Some m) true) (fun st => reject_epochs_step st b) =
+  bind (reject_epochs_init (thr_next t) (Some m) true) (fun st' => ret (st', spec_out m (thr_now t) b)).
+Proof. exact source_forwards_exactly. Qed.
+Print Assumptions C17_source_forwards_exactly.
+
+(* C17_sequences / C17_forward_only_sequences, about the generated coroutine *)
+Theorem C17_source_sequences : forall m bs t, Forall good bs -> reject_epochs_run t (Some m) true bs = ret (spec_run m t bs).
+Proof. exact source_sequences. Qed.
+Print Assumptions C17_source_sequences.
+Theorem C17_source_forward_only_sequences : forall m bs t, Forall good bs ->
+  reject_epochs_run t (Some m) false bs = ret (map out_fwd (spec_run m t bs)).
+Proof. exact source_forward_only_sequences. Qed.
+Print Assumptions C17_source_forward_only_sequences.
+
+(* C17_refusal_ends_stage, about the generated coroutine *)
+Theorem C17_source_refusal_ends_stage : forall cb m t b rest, valid b = false -> dims13 b -> Forall dom rest ->
+  reject_epochs_run t (Some m) cb (b :: rest) = ret (OErr EValue :: map (fun _ => OStop) rest).
+Proof. exact source_refusal_ends_stage. Qed.
+Print Assumptions C17_source_refusal_ends_stage.
+
+(* about the source only (the model has two modes): any other mode string leaves the criterion unbound, and the first
+   batch that passes the shape checks raises UnboundLocalError *)
+Theorem C17_source_unknown_mode : forall cb t b, valid b = true ->
+  bind (reject_epochs_init t None cb) (fun st => reject_epochs_step st b) = inl EUnbound.
+Proof. exact source_unknown_mode. Qed.
+Print Assumptions C17_source_unknown_mode.
+
+(* both halves of [dom] are needed *)
+Theorem C17_source_good_needed_refuted : exists cb m t b,
+  valid b = true /\ reject_epochs_step (st_of cb m t) b <> model_step cb m t b.
+Proof. exact step_tie_good_needed_refuted. Qed.
+Print Assumptions C17_source_good_needed_refuted.
+Theorem C17_source_dims_needed_refuted : exists cb m t b,
+  valid b = false /\ reject_epochs_step (st_of cb m t) b <> model_step cb m t b.
+Proof. exact step_tie_dims_needed_refuted. Qed.
+Print Assumptions C17_source_dims_needed_refuted.
+
+(* the domain is inhabited (a good annotated batch, a refused 2-channel batch) and the generated coroutine runs: a
+   callable threshold 10, 3; an annotated and a plain batch, a refused batch, a batch sent to the dead coroutine *)
+Example C17_source_ex :
+  dom (mk_ann [3; 1; 2] [9; -3; 10; 0; -11; 2] 5 1000 1 (LMany [70]) (LMany [100; 101; 102])) /\
+  dom (mk_plain [2; 2; 1] [1; 2; 3; 4]) /\
+  reject_epochs_run (TCall [10; 3]) (Some MAbs) true
+    [mk_ann [3; 1; 2] [9; -3; 10; 0; -11; 2] 5 1000 1 (LMany [70]) (LMany [100; 101; 102]);
+     mk_plain [2; 1; 2] [1; 2; 3; 4]; mk_plain [2; 2; 1] [1; 2; 3; 4]; mk_plain [1; 1; 1] [0]] =
+  ret [OOut (Some (fwd_ann [1; 1; 2] [9; -3] 5 1000 1 (LMany [70]) (LMany [100]))) [true; false; false];
+       OOut (Some (fwd_plain [1; 1; 2] [1; 2])) [true; false]; OErr EValue; OStop].
+Proof. exact dom_ex. Qed.
